@@ -99,8 +99,11 @@ def gen_method(rng, name, lib, kind=None, nparams=None, pool=None, negative=None
     tys = SCALARS + (SELF_TYPES if self_types else [])
     if generic is None:
         generic = rng.random() < 0.2
+    gnames = []
     if generic:
-        tys = tys + ["G", "G", "Vec<G>"]
+        # one generic parameter, or several declared in non-alphabetical order (type and const parameters mixed)
+        gnames = rng.choice([["G"], ["G"], ["Z", "G"], ["G", "B"], ["Z", "N", "G"]])
+        tys = tys + ["G", "G", "Vec<G>"] + (["Z"] if "Z" in gnames else []) + (["B"] if "B" in gnames else []) + (["[u8; N]"] if "N" in gnames else [])
     params = []
     for i in range(nparams):
         params.append(gen_param(g, rng, tys, "unsupported" if (negative == "pattern" and i == nparams - 1) else None))
@@ -117,11 +120,11 @@ def gen_method(rng, name, lib, kind=None, nparams=None, pool=None, negative=None
     is_async = lib != "std" and rng.random() < 0.3
     recv = {"ref": "&self", "mut": "&mut self", "stat": "", "slf": "self", "slfmut": "mut self"}[kind]
     plist = ["%s: %s" % (p, t) for p, t, _ in params]
-    gtxt = "<G: Send + Sync + 'static>" if generic else ""
+    gtxt = ("<%s>" % ", ".join(("const N: usize" if x == "N" else "%s: Send + Sync + 'static" % x) for x in gnames)) if generic else ""
     sig_params = ", ".join(([recv] if recv else []) + plist)
     txt = "pub %sfn %s%s(%s)%s { todo!() }" % ("async " if is_async else "", name, gtxt, sig_params, (" -> " + ret) if ret else "")
     return {"name": name, "kind": kind, "params": [(p, t) for p, t, _ in params], "pkinds": [k for _, _, k in params], "ret": ret,
-            "async": is_async, "generic": generic, "text": txt, "negative": negative}
+            "async": is_async, "generic": generic, "gnames": gnames, "text": txt, "negative": negative}
 
 
 # ---------------------------------------------------------------------------------------------
@@ -386,10 +389,36 @@ def oracle_method(m, mdl, actor_ty, direct_param):
         if body[2] != m["name"] or [var(a) for a in body[3]] != P:
             probs.append("static delegate %s calls %s(%s), expected its own parameters %s in order" % (m["name"], body[2], [var(a) for a in body[3]], P))
         return probs
+    def declared_generics():
+        if m.get("gnames"):
+            return list(m["gnames"])
+        mm = re.search(r"fn\s+(?:r#)?\w+\s*<(.*?)>\s*\(", m.get("text", ""), re.S)
+        if not mm:
+            return []
+        out, depth, cur = [], 0, ""
+        for ch in mm.group(1) + ",":
+            if ch == "," and depth == 0:
+                cur = cur.strip()
+                if cur and not cur.startswith("'"):
+                    out.append(re.sub(r"^const\s+", "", cur).split(":")[0].strip())
+                cur = ""
+                continue
+            depth += ch in "<([" 
+            depth -= ch in ">)]"
+            cur += ch
+        return out
+
+    def turbo_check(tb):
+        want = declared_generics()
+        got = [x.replace(" ", "") for x in (tb or [])]
+        if got != want:
+            probs.append("%s: the user method is called with the generic arguments %s, its generic parameters are declared as %s" % (m["name"], got, want))
+
     if m["kind"] in ("slf", "slfmut"):
         if k != "BSlf":
             return probs + ["self-consuming method %s not recognised (%s)" % (m["name"], k)]
         d = body[1]
+        turbo_check(d.get("turbo"))
         call = d["call"]
         binds = d["binds"]
         if call[0] != "UMethod" or not binds:
@@ -420,6 +449,7 @@ def oracle_method(m, mdl, actor_ty, direct_param):
         if arm is None:
             return probs + ["no arm for variant %s" % msg[2]]
         binds, ab = arm[2], arm[3]
+        turbo_check(ab.get("turbo"))
         call = ab["call"]
         lockb = ab["lock"]["binder"] if ab["lock"] else None
         if call[0] == "UMethod":
@@ -455,6 +485,7 @@ def oracle_method(m, mdl, actor_ty, direct_param):
                 probs.append("%s: the result is not sent on the call's own oneshot" % m["name"])
     elif msg[0] == "MClosure":
         cp, ab = msg[3], msg[5]
+        turbo_check(ab.get("turbo"))
         call = ab["call"]
         if call[0] != "UMethod":
             return probs + ["closure of %s: unrecognised call" % m["name"]]
